@@ -1,6 +1,194 @@
+import DdsModel.FormatTables
 import DdsModel.Drv.Util
+import DdsModel.Drv.C02
+namespace Dds.Drv.C19
+open Dds Dds.C19
+
+namespace C19Drv
+
+def fmtColor (c : ColorFormat) : String :=
+  let ch := match c.channels with
+    | .gray => "Gray" | .alpha => "Alpha" | .rgb => "Rgb" | .rgba => "Rgba"
+  let p := match c.precision with
+    | .u8 => "U8" | .u16 => "U16" | .f32 => "F32"
+  s!"{ch}/{p}"
+
+def fmtDith (d : Dithering) : String :=
+  match d.color, d.alpha with
+  | false, false => "N"
+  | true, false => "C"
+  | false, true => "A"
+  | true, true => "CA"
+
+def fmtSupport : Option Support → String
+  | none => "none"
+  | some s =>
+    let sh := match s.splitHeight with | some n => toString n | none => "-"
+    let sm := match s.sizeMultiple with | some (a, b) => s!"{a}x{b}" | none => "-"
+    let ld := if s.localDithering then "1" else "0"
+    s!"d={fmtDith s.dithering},sh={sh},ld={ld},sm={sm}"
+
+def fmtErr : FmtErr → String
+  | .dxgi => "dxgi" | .fourCC => "fourcc" | .mask => "mask"
+
+def fmtPxP : Option PixelInfo → String
+  | some p => fmtPx p
+  | none => "panic"
+
+/-- the metadata printed for a detected / listed format: everything from the code-shaped
+definitions (`formatPixelInfoP`, `bitsPerPixel`, `encodingSupport`), the colour from the pinned row -/
+def fmtMeta (f : Format) : String :=
+  let bpp := match formatPixelInfoP f with | some p => toString (bitsPerPixel p) | none => "panic"
+  s!"FP:{fmtPxP (formatPixelInfoP f)} C:{fmtColor f.row.color} B:{bpp} S:{fmtSupport (encodingSupport f)}"
+
+def parseHdr : List String → Option (Except String Hdr)
+  | ["x", code, alpha, dim, _misc] => do
+    let code ← nat? code
+    let alpha ← nat? alpha
+    let dim ← nat? dim
+    let _ ← nat? _misc
+    if alpha ≥ 5 ∨ dim < 2 ∨ dim > 4 then none
+    else if dxgiValid code then some (.ok (.dx10 code alpha)) else some (.error "invalid-dxgi")
+  | ["f", cc] => do some (.ok (.fourCC (← nat? cc)))
+  | ["m", fl, bc, r, g, b, a] => do
+    let pf : MaskPF := ⟨← nat? fl, ← nat? bc, ← nat? r, ← nat? g, ← nat? b, ← nat? a⟩
+    if bitCountValid pf.bitCount then some (.ok (.mask pf)) else some (.error "invalid-bitcount")
+  | _ => none
+
+def runHeader (t : List String) : String :=
+  match parseHdr t with
+  | none => "bad-case"
+  | some (.error e) => e
+  | some (.ok h) =>
+    let f := formatOfHeader h
+    let fs := match f with | .ok f => s!"F:{f.name}" | .error e => s!"F:E:{fmtErr e}"
+    let ps := match pixelInfoOfHeaderP h with
+      | none => "P:panic"
+      | some (.ok p) => s!"P:{fmtPx p}"
+      | some (.error e) => s!"P:E:{fmtErr e}"
+    match f with
+    | .ok f => s!"{fs} {ps} {fmtMeta f}"
+    | .error _ => s!"{fs} {ps}"
+
+def optNat : Option Nat → String
+  | some n => toString n
+  | none => "-"
+
+def runMeta (t : List String) : String :=
+  match t with
+  | [i] =>
+    match (nat? i).bind (Format.all[·]?) with
+    | none => "bad-case"
+    | some f =>
+      let k := match formatToMask f with
+        | some m => s!"{m.flags},{m.bitCount},{m.r},{m.g},{m.b},{m.a}"
+        | none => "-"
+      s!"M:{f.name} {fmtMeta f} X:{optNat f.row.dxgi} 4:{optNat f.row.fourCC} K:{k}"
+  | _ => "bad-case"
+
+def getFormat (s : String) : Option Format := (nat? s).bind (Format.all[·]?)
+def getColor (s : String) : Option ColorFormat := (nat? s).bind (ColorFormat.all[·]?)
+
+def surfBytes (f : Format) (w h : Nat) : Option Nat :=
+  (formatPixelInfoP f).bind (·.surfaceBytes w h)
+
+def runDecode (t : List String) : String :=
+  match t with
+  | [f, w, h, seed] =>
+    match getFormat f, nat? w, nat? h, nat? seed with
+    | some f, some w, some h, some _ =>
+      if w = 0 ∨ h = 0 ∨ w > 4096 ∨ h > 4096 then "bad-case" else
+      match surfBytes f w h with
+      | some n => s!"ok {n}"
+      | none => "bad-case"
+    | _, _, _, _ => "bad-case"
+  | _ => "bad-case"
+
+def runEncode (t : List String) : String :=
+  match t with
+  | [f, w, h, c, par, seed] =>
+    match getFormat f, nat? w, nat? h, getColor c, nat? par, nat? seed with
+    | some f, some w, some h, some c, some _, some _ =>
+      if w = 0 ∨ h = 0 ∨ w > 4096 ∨ h > 4096 then "bad-case" else
+      match encoderSet f with
+      | none => "err UnsupportedFormat"
+      | some s =>
+        match s.pick c Dithering.none with
+        | none => "panic"
+        | some _ =>
+          if s.support.supportsSize w h then
+            match surfBytes f w h with
+            | some n => s!"ok {n}"
+            | none => "panic"
+          else
+            match s.support.sizeMultiple with
+            | some (a, b) => s!"err InvalidSize:{a}x{b}"
+            | none => "panic"
+    | _, _, _, _, _, _ => "bad-case"
+  | _ => "bad-case"
+
+/-- `1` = the model demands byte equality, `?` = no prediction -/
+def must (b : Bool) : String := if b then "1" else "?"
+
+def runDither (t : List String) : String :=
+  match t with
+  | [f, w, h, c, seed] =>
+    match getFormat f, nat? w, nat? h, getColor c, nat? seed with
+    | some f, some w, some h, some c, some _ =>
+      if w = 0 ∨ h = 0 ∨ w > 256 ∨ h > 256 then "bad-case" else
+      match encoderSet f with
+      | none => "unsupported"
+      | some s =>
+        if !s.support.supportsSize w h then "unsupported-size" else
+        let eff := fun (d : Dithering) => effectiveDithering f c d
+        let eN := eff ⟨false, false⟩
+        let eC := eff ⟨true, false⟩
+        let eA := eff ⟨false, true⟩
+        let eCA := eff ⟨true, true⟩
+        if eN.isNone ∨ eC.isNone ∨ eA.isNone ∨ eCA.isNone then "panic" else
+        -- two options give the same bytes when the same channel groups are effectively dithered
+        let same := fun (a b : Option Dithering) => must (a == b)
+        let ind := alphaIndependent f
+        -- stored alpha under N vs C: equal when colour-only dithering has no effective alpha part
+        let aNC := if ind then must ((eC.map (·.alpha)) == some false && (eN.map (·.alpha)) == some false) else "-"
+        let cNA := if ind then must ((eA.map (·.color)) == some false && (eN.map (·.color)) == some false) else "-"
+        s!"adv={fmtDith s.support.dithering} C={same eN eC} A={same eN eA} CA={same eN eCA} CA~C={same eCA eC} CA~A={same eCA eA} aNC={aNC} cNA={cNA}"
+    | _, _, _, _, _ => "bad-case"
+  | _ => "bad-case"
+
+/-- canary: `1` = the chosen path dithers nothing, so the bytes equal those of `Dithering::None`;
+`0` = some group is effectively dithered (on the canary image this is visible in the bytes) -/
+def runCanary (t : List String) : String :=
+  match t with
+  | [f, c] =>
+    match getFormat f, getColor c with
+    | some f, some c =>
+      match encoderSet f with
+      | none => "unsupported"
+      | some s =>
+        if !s.support.supportsSize 48 8 then "unsupported-size" else
+        let tok := fun (d : Dithering) =>
+          match effectiveDithering f c d with
+          | none => "panic"
+          | some e => if e == Dithering.none then "1" else "0"
+        s!"C={tok ⟨true, false⟩} A={tok ⟨false, true⟩} CA={tok ⟨true, true⟩}"
+    | _, _ => "bad-case"
+  | _ => "bad-case"
+
+end C19Drv
+
+def runC19 (line : String) : String :=
+  match toks line with
+  | "H" :: rest => C19Drv.runHeader rest
+  | "M" :: rest => C19Drv.runMeta rest
+  | "D" :: rest => C19Drv.runDecode rest
+  | "E" :: rest => C19Drv.runEncode rest
+  | "T" :: rest => C19Drv.runDither rest
+  | "G" :: rest => C19Drv.runCanary rest
+  | _ => "bad-case"
+
+end Dds.Drv.C19
+
 namespace Dds.Drv
-
-def runC19 (_line : String) : String := "not-modelled"
-
+def runC19 : String → String := C19.runC19
 end Dds.Drv
